@@ -1,0 +1,7 @@
+//go:build !verif
+
+package appdb
+
+import db "github.com/tendermint/tm-db"
+
+func verifWrapDB(d db.DB) db.DB { return d }
